@@ -68,6 +68,27 @@ def drive(tier):
         R.add("ids.family", {"kind": "tx", "objs": fam},
               {"eq": eq, "pyhash": ph, "txids": [b2l(o.GetTxid()) for o in objs], "ids": [b2l(o.GetHash()) for o in objs],
                "ne_consistent": ne_ok})
+    # accepted non-canonical encodings (over-long CompactSize, marker/flag with all-empty witness): the object's
+    # identifiers are those of its own serialisation, whatever bytes it was read from
+    from bitcoin.core import CTransaction, CMutableTransaction, CBlockHeader as _H
+    for t in range(20 if tier == "quick" else 300):
+        d = gen.gen_tx(r, nin=r.choice([1, 2]), nout=r.choice([0, 1, 2]), witness="none", lens=[0, 1, 25])
+        enc = gen.build_tx(d).serialize()
+        nin, nout = len(d["vin"]), len(d["vout"])
+        variants = [enc[:4] + b"\xfd" + bytes([nin, 0]) + enc[5:],                       # vin count as fd xx 00
+                    enc[:4] + b"\xfe" + bytes([nin, 0, 0, 0]) + enc[5:],
+                    enc[:4] + b"\x00\x01" + enc[4:-4] + b"\x00" * nin + enc[-4:]]           # extended form, every stack empty
+        for raw in variants:
+            for cls in (CTransaction, CMutableTransaction):
+                k, o = call(cls.deserialize, raw)
+                if k == "exc":
+                    continue
+                k1, txid = call(o.GetTxid)
+                k2, wtxid = call(o.GetHash)
+                cached = getattr(o, "_cached_GetHash", None)
+                R.add("ids.obj", {"kind": "tx", "obj": gen.proj_tx(o), "from": "non-canonical-encoding"},
+                      {"txid": b2l(txid) if k1 == "ret" else [-1], "wtxid": b2l(wtxid) if k2 == "ret" else [-1],
+                       "cached": b2l(cached) if cached is not None else []})
     # blocks: same header, different transaction lists
     txs = [gen.gen_tx(r, lens=[0, 1, 75]) for _ in range(12)]
     txs = [t for t in txs if len(t["vin"]) < 5 and len(t["vout"]) < 5]
@@ -85,6 +106,12 @@ def drive(tier):
                 k, blk0 = call(gen.build_block, tmp)
                 if k == "exc":
                     continue
+                # the constructor filled the root in: the block's hash is the hash of *that* header
+                js0 = gen.block_json(dict(tmp, merkle=bytes(blk0.hashMerkleRoot)))
+                k1, bh0 = call(blk0.GetHash)
+                k2, hh0 = call(lambda: blk0.get_header().GetHash())
+                R.add("ids.obj", {"kind": "block", "obj": js0, "constructed": True},
+                      {"hash": b2l(bh0) if k1 == "ret" else [-1], "hdrhash": b2l(hh0) if k2 == "ret" else [-1], "cached": []})
             blk = CBlock.deserialize(gen.build_header(h).serialize() + _vtx_bytes(d["vtx"]))
             js = gen.block_json(d)
             fam.append(js)
